@@ -48,7 +48,7 @@ def make_plan(seed: int, tier: str, opts: dict) -> dict:
     cc = None
     if do_compiled:
         cc = dict(mode=r.choice(compiled.MODES), prune=r.random() < 0.5, api=r.choice(["rollout_carry", "run_jit", "gym_jit"]),
-                  record={f: r.random() < 0.6 for f in FIELDS})
+                  record={f: r.random() < 0.6 for f in FIELDS}, starting_step=r.choice([0, 0, "mid"]))
     for ep in eps:
         ep["until_active"] = True
     return dict(spec=spec, seed=seed, episodes=eps, clock="wall" if wall else "sim", line_rate=0.0, compile=cc)
@@ -182,11 +182,12 @@ def run_plan(plan: dict, replay=None) -> dict:
         sup = nodes[sup_name]
         raw = compiled.experiment_graph([ref.record])
         G = compiled.build_graph(nodes, sup, raw, mode=cc["mode"], prune=cc["prune"])
-        n = G.max_steps
+        s0 = 0 if cc.get("starting_step", 0) == 0 else max(1, (G.max_steps + 1) // 2)  # episodes may legally be started in the middle
+        n = max(1, G.max_steps - s0)
         probes.clear_trace()
-        out0, _ = compiled.drive(G, compiled.init_state(G, ref.gs0, 0), cc["api"], n)
+        out0, _ = compiled.drive(G, compiled.init_state(G, ref.gs0, 0, starting_step=s0), cc["api"], n)
         ev0 = probes.take_trace()
-        out1, _ = compiled.drive(G, compiled.init_state(G, ref.gs0, 0, record=cc["record"]), cc["api"], n)
+        out1, _ = compiled.drive(G, compiled.init_state(G, ref.gs0, 0, record=cc["record"], starting_step=s0), cc["api"], n)
         ev1 = probes.take_trace()
         if [(e["node"], e["seq"], e["h0"], e["h1"]) for e in ev0] != [(e["node"], e["seq"], e["h0"], e["h1"]) for e in ev1]:
             viol.append(dict(clause="c13-compiled-recording-changed-the-execution", signature="c13-comp-exec", compile=cc))
